@@ -7,6 +7,7 @@ mod c06;
 mod c10;
 mod c11;
 mod c13;
+mod c18;
 mod enc;
 mod natives;
 mod runner;
@@ -213,6 +214,7 @@ fn real_main() {
         "c10api" => c10::cmd(),
         "c11" => c11::cmd(),
         "c13" => c13::cmd(),
+        "c18" => c18::cmd(),
         _ => {
             eprintln!("usage: sut <run|...>");
             std::process::exit(2);
